@@ -55,7 +55,13 @@ func (s String) Iter() NativeIterator {
 
 func (s String) Iterate() iter.Seq2[Value, Value] {
 	return func(yield func(Value, Value) bool) {
-		for _, v := range s {
+		for i, v := range s {
+			if v == utf8.RuneError {
+				if _, size := utf8.DecodeRuneInString(string(s[i:])); size == 1 {
+					// invalid UTF-8 character, yield the same Char as `Get`
+					v = rune(s[i])
+				}
+			}
 			if !yield(Char(v).ToValue(), Undefined) {
 				return
 			}
@@ -750,6 +756,10 @@ func (s *StringCharIterator) NextValue() (Value, Value) {
 		return Undefined, stopIterationSymbol.ToValue()
 	}
 	run, size := utf8.DecodeRuneInString(string(s.String[s.ByteOffset:]))
+	if run == utf8.RuneError && size == 1 {
+		// invalid UTF-8 character, yield the same Char as `Get`
+		run = rune(s.String[s.ByteOffset])
+	}
 
 	s.ByteOffset += size
 	return Char(run).ToValue(), Undefined
